@@ -720,3 +720,60 @@ def recipient_param(fn, default='connection'):
 def param_index_of_type(fn, tsub, default):
     idx = [i for i, p in enumerate(fn.params) if tsub in (p.get('t') or '')]
     return idx[0] if len(idx) == 1 else default
+
+
+def limit_setters_only_lower(prog, rule, files, floor=2):
+    """A function that stores a requested maximum (`..._set_max_...`: its numeric parameter ends up in a `max_*` field)
+    may clamp the request from above and nothing else: every replacement of the parameter by a constant K lies on a
+    path where `param > C` (or `>= C`) was found true for some C >= K, so the stored limit never exceeds the requested
+    one.  A request of 0 stays 0."""
+    from .cfg import Explorer, is_int, is_ref, written_lvalues, estr
+    n = 0
+    for f in prog.funcs.values():
+        if f.file not in files or not prog.is_production(f) or '_set_max_' not in f.name:
+            continue
+        nums = {p['id']: p['name'] for p in f.params if (p.get('t') or '') in ('long', 'int', 'unsigned int', 'unsigned long', 'dbus_uint32_t')}
+        stored = set()
+        for b, i, ev in f.events():
+            for lhs, how, rhs in written_lvalues(ev):
+                if lhs.get('k') == 'member' and lhs.get('field', '').startswith('max_') and is_ref(rhs) and rhs.get('id') in nums:
+                    stored.add(rhs['id'])
+        if not stored:
+            continue
+        n += 1
+
+        def akey(atom, resolve, stored=stored):
+            if atom[0] == 'cmp' and atom[1] in ('>', '>=', '<', '<=') and is_ref(atom[2]) and atom[2].get('id') in stored \
+                    and is_int(atom[3]):
+                return ('cmp', atom[1], atom[2]['id'], atom[3]['v'])
+            return None
+
+        def on_event(user, ev, ctx, stored=stored, f=f):
+            for lhs, how, rhs in written_lvalues(ev):
+                if is_ref(lhs) and lhs.get('id') in stored and how != 'decl':
+                    k = rhs.get('v') if isinstance(rhs, dict) and is_int(rhs) and how == '=' else None
+                    ok = False
+                    if k is not None:
+                        for key, val in ctx.atoms().items():
+                            if key[0] != 'cmp' or key[2] != lhs['id']:
+                                continue
+                            op, c = key[1], key[3]
+                            # param > c (true) / param >= c (true) / param <= c (false) / param < c (false)
+                            lower = (op == '>' and val is True and c >= k) or (op == '>=' and val is True and c >= k) or \
+                                    (op == '<=' and val is False and c >= k) or (op == '<' and val is False and c >= k)
+                            ok = ok or lower
+                    if not ok:
+                        ctx.report('%s replaces the requested limit %s by %s on a path where the request was not found '
+                                   'to be larger: the stored limit can exceed what was asked for' % (
+                                       f.name, lhs['name'], estr(rhs) if isinstance(rhs, dict) else how),
+                                   ev['line'], key=('raise', ev['line']))
+            return user
+        ex = Explorer(f, on_event=on_event, atom_key=akey, cap=50000).run()
+        key = '%s:only-lowers' % f.name
+        if ex.reports:
+            rule.from_reports(ex.reports, keyfn=lambda k, rep, key=key: key)
+        else:
+            rule.ok(key)
+    if n < floor:
+        raise AnalysisBroken('limit setters: only %d found' % n)
+    return n
